@@ -13,7 +13,7 @@ The tables (`_COLORS`, `_COLORS_NAMES`, `_MODIFIERS`, effect order and codes, `B
 `DFLT_SYNTAX_ID`) are `Gen.C14.*`, regenerated from the source on every run.
 
 Part 2 is the state: `syntax_map` is an insertion-ordered association list `SMap`; an `Entry` keeps the
-parsed description as registered (`desc`, what `init_str` says; never changes) and, once
+description as registered (`initStr` and its parsed form `desc`; they never change) and, once
 `_ColorConfColorDescr.resolve` has run, the effective colours/modifiers it left in the object together
 with the prefix of the `ColorFmt` it created (`res`).  `addNewItems` is `add_new_items` as the code runs it:
 cache reset, insertion with first-registration-wins, then `resolveAll`: the `while to_resolve` loop over
@@ -248,20 +248,24 @@ def joinWith (sep : Char) : List Str → Str
   | [a] => a
   | a :: b :: r => a ++ sep :: joinWith sep (b :: r)
 
+/-- the code of one optional colour argument of `_ColorSequences.make` -/
+def seqOpt (isBg : Bool) : Option Color → Except Err (List Str)
+  | none => .ok []
+  | some c =>
+    match seqElement isBg c with
+    | .ok x => .ok [x]
+    | .error x => .error x
+
 /-- prefix of `ColorFmt(fg, bg_color=bg, **mods)` -/
 def colorFmt (e : Resolved) : Except Err Str :=
-  let fgE : Except Err (List Str) := match e.fg with
-    | none => .ok []
-    | some c => match seqElement false c with | .ok x => .ok [x] | .error x => .error x
-  let bgE : Except Err (List Str) := match e.bg with
-    | none => .ok []
-    | some c => match seqElement true c with | .ok x => .ok [x] | .error x => .error x
-  match fgE, bgE with
-  | .error x, _ => .error x
-  | .ok _, .error x => .error x
-  | .ok f, .ok b =>
-    let codes := f ++ b ++ effectCodes e.mods Gen.C14.effects
-    if codes = [] then .ok [] else .ok (Char.ofNat 27 :: '[' :: joinWith ';' codes ++ ['m'])
+  match seqOpt false e.fg with
+  | .error x => .error x
+  | .ok f =>
+    match seqOpt true e.bg with
+    | .error x => .error x
+    | .ok b =>
+      let codes := f ++ b ++ effectCodes e.mods Gen.C14.effects
+      .ok (if codes = [] then [] else Char.ofNat 27 :: '[' :: joinWith ';' codes ++ ['m'])
 
 /-! ## Part 2: the configuration -/
 
@@ -272,6 +276,7 @@ structure Res where
   deriving DecidableEq, Repr
 
 structure Entry where
+  initStr : Str
   desc : Desc
   res : Option Res
   deriving DecidableEq, Repr
@@ -408,11 +413,11 @@ def insertItems (noColor : Bool) : SMap → List (Id × Str) → Except Err SMap
     | .error x => .error x
     | .ok d =>
       match d.parent with
-      | some _ => insertItems noColor (m ++ [(id, ⟨d, none⟩)]) rest
+      | some _ => insertItems noColor (m ++ [(id, ⟨s, d, none⟩)]) rest
       | none =>
         match resolve1 noColor d none with
         | .error x => .error x
-        | .ok r => insertItems noColor (m ++ [(id, ⟨d, some r⟩)]) rest
+        | .ok r => insertItems noColor (m ++ [(id, ⟨s, d, some r⟩)]) rest
 
 /-- source of a registration: a palette class or anything else hashable (here: a name) -/
 inductive Src where
@@ -463,13 +468,16 @@ def newConf (noColor : Bool) (cfg : Cfg) : Except Err Conf :=
   | .error x => .error x
   | .ok c => addNewItems c (flatten Gen.C14.builtin)
 
+/-- the entry `get_color` looks at: the id's own, or the default syntax's for an unknown id -/
+def getEntry (c : Conf) (id : Id) : Option Entry :=
+  match lookup c.map id with
+  | some e => some e
+  | none => lookup c.map Gen.C14.dfltId
+
 /-- `ColorsConfig.get_color(synt_id)`, as the prefix of the formatter -/
 def getColor (c : Conf) (id : Id) : Str :=
-  let e := match lookup c.map id with
-    | some e => some e
-    | none => lookup c.map Gen.C14.dfltId
-  match e with
-  | some ⟨_, some r⟩ => r.fmt
+  match getEntry c id with
+  | some ⟨_, _, some r⟩ => r.fmt
   | _ => []
 
 /-- `ColorsConfig.register_color_conf_component(syntax_map, src_obj)` -/
@@ -594,8 +602,21 @@ def run (classes : List ClassDef) (noColor : Bool) (cfg : Cfg) (ops : List Op) :
 
 /-! ## Part 5: the declarative reading of the statement -/
 
-/-- the descriptions a configuration holds, as registered -/
+/-- the descriptions a configuration holds, as registered: the strings and their parsed form -/
+def strOf (m : SMap) (id : Id) : Option Str := (lookup m id).map (·.initStr)
 def descOf (m : SMap) (id : Id) : Option Desc := (lookup m id).map (·.desc)
+
+/-- first registration wins: what a batch of items adds to a set of description strings -/
+def firstStr (sm : Id → Option Str) (items : List (Id × Str)) (id : Id) : Option Str :=
+  match sm id with
+  | some s => some s
+  | none => dictGet items id
+
+/-- the parsed form of a description string (`none`: the parser raises `ValueError`) -/
+def parsed (s : Str) : Option Desc :=
+  match parseInitStr s with
+  | .ok d => some d
+  | .error _ => none
 
 /-- `Resolves dm id r`: the attributes of `id` determined by the set of descriptions `dm` alone.
 A description without a reference stands for itself; a description that refers to `p` takes the
